@@ -11,6 +11,19 @@ from krrood.adapters.json_serializer import to_json, from_json, JSON_TYPE_NAME, 
 from krrood.utils import get_full_class_name
 from test.test_utils.test_json_serializer import Animal, Dog, Bulldog, Cat
 
+from dataclasses import dataclass
+
+
+@dataclass
+class Puppy(Dog):
+    """inherits to_json / _from_json from Dog (tag: __main__.Puppy)"""
+
+
+@dataclass
+class FrenchBulldog(Bulldog):
+    pass
+
+
 a = args()
 rng = random.Random(a.seed)
 rep = Report("C18", "leaves (None, bools, ints up to 10**300, floats incl. inf/-inf/1e-320/-0.0, unicode and escape-laden strings), "
@@ -20,12 +33,14 @@ LEAVES = [None, True, False, 0, -1, 1, 2 ** 63, -2 ** 64, 10 ** 300, 0.0, -0.0, 
           "", "a", "é", "日本語", "\u0000", "퟿", "\"quoted\"", "back\\slash", "line\nbreak", "\U0001F600", " ", "null", "true", "1",
           "__json_type__", "krrood.adapters.json_serializer.SubclassJSONSerializer"]
 OBJECTS = [uuid.UUID(int=0), uuid.UUID("12345678-1234-5678-1234-567812345678"), uuid.uuid4(),
-           Animal("a", 1), Dog("d", 2, "lab"), Dog("d", 0), Bulldog("b", 3, "bull", False), Bulldog("", 0), Cat("c", 4, 7), Cat("é", -1)]
+           Puppy("p", 0, "lab"), FrenchBulldog("f", 1, "fb", True), Animal("a", 1), Dog("d", 2, "lab"), Dog("d", 0), Bulldog("b", 3, "bull", False), Bulldog("", 0), Cat("c", 4, 7), Cat("é", -1)]
 
 
 def exact_equal(x, y):
     if type(x) is not type(y):
         return False
+    if isinstance(x, Animal):
+        return x == y and type(x) is type(y)
     if isinstance(x, list):
         return len(x) == len(y) and all(exact_equal(p, q) for p, q in zip(x, y))
     if isinstance(x, float):
